@@ -127,14 +127,26 @@ def session_callees(journal_ops=("persist_msg", "set_seq_num"), durability=False
     return encode_tasks() + journal_tasks(ops=journal_ops, durability=durability)
 
 
-def from_module(modname, names, owner_pid, rename=None):
-    """tasks `names` of another property module, with that module's hooks"""
+def from_module(modname, names, owner_pid, rename=None, keep=None):
+    """tasks `names` of another property module (exact names, or a prefix ending in '*'), with that module's hooks;
+    keep: only the clauses whose name starts with one of these prefixes (the others are that property's business)"""
     m = _mod(modname)
     out = []
     for t in m.PROPERTY.tasks:
-        if t.name in names:
+        if t.name in names or any(n.endswith("*") and t.name.startswith(n[:-1]) for n in names):
             t2 = _Renamed(t, (rename or {}).get(t.name, t.name))
             t2.__class__ = t.__class__
             t2.hooks, t2.owner_pid = m, owner_pid
+            if keep is not None:
+                t2.harness = _only(t.harness, tuple(keep))
+                t2.cover = False
             out.append(t2)
     return out
+
+
+def _only(inner, keep):
+    def h(I):
+        cl = inner(I)
+        I.ctx.site_obligs[:] = [o for o in I.ctx.site_obligs if o[0].startswith(keep)]
+        return [(n, c) for n, c in cl if n.startswith(keep)] + [("shared_task_runs", True)]
+    return h
